@@ -236,13 +236,67 @@ def gv_arg(case):
     return dict(gv)
 
 
+class AttrDict(dict):
+    """attribute-access mapping (the addict / munch / easydict kind) as programmatically built data holds them"""
+    def __getattr__(self, name):
+        if name.startswith('_') or name not in self:
+            raise AttributeError(name)
+        return self[name]
+
+
+STRUCTURAL_KEYS = ('for_namespaces', 'uses', 'tasks', 'excluded_tasks', 'configs')
+
+
+def has_definition(doc):
+    if isinstance(doc, dict):
+        return 'class' in doc or any(has_definition(v) for v in doc.values())
+    if isinstance(doc, list):
+        return any(has_definition(v) for v in doc)
+    return False
+
+
+def with_mapping_class(doc, kind, top=True):
+    """the same document with the mappings / sequences inside parameter values built from subclasses of dict / list
+    (data= and dict contexts only; definitions of objects and the structural fields stay plain)"""
+    if not kind:
+        return doc
+    import collections
+    mk = {'ordered': collections.OrderedDict, 'attr': AttrDict,
+          'default': lambda items: collections.defaultdict(list, items)}[kind]
+    if isinstance(doc, dict):
+        if top:
+            return {k: (v if k in STRUCTURAL_KEYS else with_mapping_class(v, kind, False)) for k, v in doc.items()}
+        if has_definition(doc):
+            return doc      # definitions of objects are looked for in plain dicts / lists only
+        return mk([(k, with_mapping_class(v, kind, False)) for k, v in doc.items()])
+    if isinstance(doc, list):
+        return [with_mapping_class(v, kind, False) for v in doc]   # sequences stay lists (the library tests type(o) is list)
+    return doc
+
+
+def ctx_arg_mc(ctx, mod, kind):
+    if ctx is None or not kind:
+        return ctx_arg(ctx, mod)
+    if 'dict' in ctx:
+        d = subst_mod(spec_to_doc(ctx['dict']), mod)
+        out = with_mapping_class(d, kind)
+        if 'for_namespaces' in d:
+            out['for_namespaces'] = {ns: with_mapping_class(v, kind) for ns, v in d['for_namespaces'].items()}
+        return out
+    if 'file' in ctx:
+        return ctx['file']
+    return [ctx_arg_mc(c, mod, kind) for c in ctx['list']]
+
+
 def build_config(case, mod, base=None, data_dir='data'):
     from taskchain import Config
     base = base or case['base']
-    kw = dict(global_vars=gv_arg(case), context=ctx_arg(case.get('context'), mod))
+    kind = case.get('mapping_class')
+    kw = dict(global_vars=gv_arg(case), context=ctx_arg_mc(case.get('context'), mod, kind))
     if 'file' in base:
         return Config(Path(data_dir), base['file'], **kw)
-    return Config(Path(data_dir), name=base['name'], data=subst_mod(spec_to_doc(base['data']), mod), **kw)
+    return Config(Path(data_dir), name=base['name'],
+                  data=with_mapping_class(subst_mod(spec_to_doc(base['data']), mod), kind), **kw)
 
 
 def to_spec(v):
